@@ -45,7 +45,7 @@ DETERMINISTIC_FNS = ('t_one_preemption',)
 TRACKED = (REPO + "/passlib", REPO + "/libpass")
 INIT_FUNCS = {"_lazy_init", "__getattribute__", "set_backend", "_set_backend", "_stub_requires_backend", "_set_calc_checksum_backend", "_load_backend_mixin",
               "_finalize_backend_mixin", "__init__", "load", "_load_tables", "get_crypt_handler", "__getattr__", "_lookup_hash", "lookup_hash", "get_backend",
-              "_load_backend_os_crypt", "_load_backend_builtin", "_calc_checksum", "_calc_checksum_backend", "register_crypt_handler", "_init_constants"}
+              "_load_backend_os_crypt", "_load_backend_builtin", "__getitem__", "_load_wordset", "compile_hmac", "_get_hash_const", "_calc_checksum", "_calc_checksum_backend", "register_crypt_handler", "_init_constants"}
 
 
 # ---- scenario construction ---------------------------------------------------------------------------
@@ -213,6 +213,31 @@ def scenario(spec):
             return [fns[c] for c in calls]
 
         return make, (lambda c, v, o: v), state
+    if kind == "wordset":
+        def make():
+            import passlib.pwd as pwd
+
+            importlib.reload(pwd)  # word lists not loaded yet
+
+            def phrase(ws):
+                out = pwd.genphrase(entropy=24, wordset=ws, sep=" ")
+                words = set(pwd.default_wordsets[ws])
+                return all(w in words for w in out.split(" ")) and len(out.split(" ")) >= 2
+
+            fns = {"short": lambda: phrase("eff_short"), "short2": lambda: phrase("eff_short"), "long": lambda: phrase("eff_long"), "word": lambda: len(pwd.genword(entropy=40)) >= 6}
+            return [fns[c] for c in calls]
+
+        return make, (lambda c, v, o: v), state
+    if kind == "hmac":
+        def make():
+            import passlib.crypto.digest as dg
+
+            alg = spec["name"]
+            f = dg.compile_hmac(alg, b"shared-key")  # ONE keyed function shared by all callers
+            msgs = {"m1": b"message one", "m2": b"message two" * 9, "m3": b""}
+            return [lambda c=c: f(msgs[c]).hex() for c in calls]
+
+        return make, (lambda c, v, o: v), state
     if kind == "steady":
         def make():
             from passlib.context import CryptContext
@@ -363,6 +388,10 @@ def scenarios(tier):
         {"kind": "des", "calls": ["block", "salted"]},
         {"kind": "lookup", "calls": ["sha256", "hmac"]},
         {"kind": "steady", "calls": ["w", "w"]},
+        {"kind": "wordset", "calls": ["short", "short2"]},
+        {"kind": "wordset", "calls": ["short", "word"]},
+        {"kind": "hmac", "name": "md4", "calls": ["m1", "m2"]},
+        {"kind": "hmac", "name": "sha256", "calls": ["m1", "m3"]},
     ]
     if tier == "thorough":
         sc += [
@@ -447,6 +476,43 @@ def t_hyp_schedules(rec, seed, tier, index):
     hyp_campaign(rec, body, cases(), cnt, seed, shrink_budget=20)
 
 
+def t_builtin_independent(rec, seed, tier):
+    """pure-python primitives keep no state between calls: the same calls give the same values the second time and from several threads"""
+    import bcrypt as pyca
+
+    from passlib.crypto._blowfish import raw_bcrypt
+    from passlib.crypto._md4 import md4
+
+    salt = b"abcdefghijklmnopqrstuu"
+    pws = [b"first", b"second", b"third"]
+    ref = {p: pyca.hashpw(p, b"$2b$04$" + salt)[-31:] for p in pws}
+    res = []
+
+    def w(p):
+        res.append((p, raw_bcrypt(p, "2b", salt, 4)))
+
+    for p in pws + pws:
+        w(p)
+    ts = [threading.Thread(target=w, args=(p,)) for p in pws]
+    for t in ts:
+        t.start()
+    for t in ts:
+        t.join(120)
+    rec.ev(len(res))
+    rec.nt("builtin-bcrypt-independent", len(res))
+    bad = [(p, v) for p, v in res if v != ref[p]]
+    if bad:
+        rec.fail("C19/builtin-bcrypt/not-independent", "repeated / concurrent pure-python bcrypt computations influence each other", "stress", {"spec": {"kind": "builtin-bcrypt", "calls": ["x"]}, "threads": 3}, repr(bad[0]), ref[bad[0][0]], soft=True)
+    base = md4(b"x" * 64)
+    a = base.copy()
+    a.update(b"abc" * 30)
+    b = base.copy()
+    b.update(b"def")
+    rec.ev(3)
+    if (a.hexdigest(), b.hexdigest(), base.hexdigest()) != (md4(b"x" * 64 + b"abc" * 30).hexdigest(), md4(b"x" * 64 + b"def").hexdigest(), md4(b"x" * 64).hexdigest()):
+        rec.fail("C19/md4/copies-not-independent", "copies of a builtin MD4 object share state", "stress", {"spec": {"kind": "md4-copy", "calls": ["x"]}, "threads": 1}, None, None, soft=True)
+
+
 def t_stress(rec, seed, tier):
     for spec in scenarios("quick"):
         if spec["kind"] == "steady":
@@ -463,4 +529,5 @@ def tasks(tier):
         ts.append({"name": f"one-preempt-{i:02d}-{spec['kind']}-{spec.get('name', '')}", "fn": "t_one_preemption", "kw": {"index": i}})
         ts.append({"name": f"hyp-sched-{i:02d}-{spec['kind']}-{spec.get('name', '')}", "fn": "t_hyp_schedules", "kw": {"index": i}})
     ts.append({"name": "stress", "fn": "t_stress"})
+    ts.append({"name": "builtin-independent", "fn": "t_builtin_independent"})
     return ts
